@@ -1,7 +1,6 @@
 package helpers
 
 import (
-	"sync"
 	"context"
 	"errors"
 	"fmt"
@@ -9,6 +8,7 @@ import (
 	"reflect"
 	"sort"
 	"strings"
+	"sync"
 	"time"
 
 	am "github.com/pancsta/asyncmachine-go/pkg/machine"
@@ -398,33 +398,33 @@ func Sweep(r *rand.Rand, samples int) ([]SweepResult, map[string]int) {
 		wg.Add(1)
 		sem <- struct{}{}
 		go func() {
-		defer wg.Done()
-		defer func() { <-sem }()
-		if Progress != nil {
-			Progress(tg.name)
-		}
-		for _, ph := range phases {
-			if !strings.HasPrefix(tg.name, "Machine.") && !strings.HasPrefix(tg.name, "am") && !strings.HasPrefix(tg.name, "Event.") && ph != "fresh" {
-				// value types do not depend on the machine phase
-				if !(strings.HasPrefix(tg.name, "amhelp.") || strings.HasPrefix(tg.name, "amint.")) {
-					continue
+			defer wg.Done()
+			defer func() { <-sem }()
+			if Progress != nil {
+				Progress(tg.name)
+			}
+			for _, ph := range phases {
+				if !strings.HasPrefix(tg.name, "Machine.") && !strings.HasPrefix(tg.name, "am") && !strings.HasPrefix(tg.name, "Event.") && ph != "fresh" {
+					// value types do not depend on the machine phase
+					if !(strings.HasPrefix(tg.name, "amhelp.") || strings.HasPrefix(tg.name, "amint.")) {
+						continue
+					}
+				}
+				for k := 0; k < samples; k++ {
+					env := newPhase(ph)
+					res := callOne(r, tg.name, tg.fn, env)
+					env.close()
+					mx.Lock()
+					stats[res.Kind]++
+					if res.Kind != "ok" {
+						out = append(out, res)
+					}
+					mx.Unlock()
+					if res.Kind == "skipped" {
+						break
+					}
 				}
 			}
-			for k := 0; k < samples; k++ {
-				env := newPhase(ph)
-				res := callOne(r, tg.name, tg.fn, env)
-				env.close()
-				mx.Lock()
-				stats[res.Kind]++
-				if res.Kind != "ok" {
-					out = append(out, res)
-				}
-				mx.Unlock()
-				if res.Kind == "skipped" {
-					break
-				}
-			}
-		}
 		}()
 	}
 	wg.Wait()
